@@ -22,9 +22,12 @@ impl Binding {
     pub fn add_var(&mut self, solver: &mut Solver, decl: &VarDecl, name: Option<String>) {
         match decl.kind {
             VarKind::Bool => {
-                let l = match name {
-                    Some(n) => solver.new_named_literal(n),
-                    None => solver.new_literal(),
+                let l = match (&decl.link, name) {
+                    (Some(p), _) => solver.new_literal_for_predicate(self.pred(p)),
+                    (None, name) => match name {
+                        Some(n) => solver.new_named_literal(n),
+                        None => solver.new_literal(),
+                    },
                 };
                 self.vars.push(l.get_true_predicate().get_domain());
                 self.lits.push(Some(l));
